@@ -31,9 +31,11 @@ func init() {
 //	svc-put <ltxspec>      the service gets this file (as written by some other primary)
 //	svc-put-force <spec>   ... even if it does not extend what the service has
 type backupImpl struct {
-	eng    engineImpl
-	client *litefs.FileBackupClient
-	dir    string
+	eng       engineImpl
+	client    *litefs.FileBackupClient
+	dir       string
+	loop      bool      // the store was opened with the continuous sync loop
+	loopStart time.Time // when
 }
 
 func (m *backupImpl) Close() {
@@ -83,6 +85,10 @@ func (m *backupImpl) Do(line string) string {
 		m.eng.configure = func(st *litefs.Store) error {
 			st.BackupClient = m.client
 			st.BackupDelay = 0 // no background loop: the suite calls SyncBackup
+			if m.loop {
+				st.BackupDelay = 2 * time.Millisecond // continuous loop (starts with the node's first backup tick, 1 s after it became primary)
+				st.BackupFullSyncInterval = time.Hour
+			}
 			st.Leaser = litefs.NewStaticLeaser(true, "localhost", "http://127.0.0.1:1")
 			return nil
 		}
@@ -91,6 +97,40 @@ func (m *backupImpl) Do(line string) string {
 		}
 		for i := 0; i < 500 && !m.eng.store.IsPrimary(); i++ {
 			time.Sleep(time.Millisecond)
+		}
+		return "ok"
+	case "reopen-loop": // restart with the continuous sync loop instead of explicit one-pass syncs
+		if m.eng.store == nil {
+			return "bad-op"
+		}
+		m.loop = true
+		out := m.eng.Do("reopen")
+		m.loopStart = time.Now()
+		for i := 0; i < 500 && m.eng.store != nil && !m.eng.store.IsPrimary(); i++ {
+			time.Sleep(time.Millisecond)
+		}
+		return out
+	case "backup-wait": // let the loop finish the pass a change (or its start) triggered
+		if !m.loop {
+			return "bad-op"
+		}
+		if d := 1300*time.Millisecond - time.Since(m.loopStart); d > 0 {
+			time.Sleep(d)
+		}
+		last, stable := "", 0
+		for i := 0; i < 400 && stable < 12; i++ {
+			cur := strings.Join(m.svcFiles(), ",")
+			if cur == last {
+				stable++
+			} else {
+				last, stable = cur, 0
+			}
+			time.Sleep(10 * time.Millisecond)
+		}
+		if m.eng.db == nil && m.eng.store != nil {
+			if m.eng.db = m.eng.store.DB("db"); m.eng.db != nil {
+				m.eng.db.Now = func() time.Time { return fixedNow }
+			}
 		}
 		return "ok"
 	case "backup-sync":
@@ -224,6 +264,7 @@ func genBackup(c *Ctx) error {
 	if c.Tier == "thorough" {
 		nHist = 160
 	}
+	directedBackupLoop(c)
 	for h := 0; h < nHist; h++ {
 		ps := pick(r, []int{512, 1024, 4096})
 		cs := c.Begin()
@@ -397,4 +438,59 @@ func genBackup(c *Ctx) error {
 		}
 	}
 	return nil
+}
+
+// directedBackupLoop: the continuous sync loop (cached service positions) against a backlog on
+// either side of the 256-file batch limit, then further commits.
+func directedBackupLoop(c *Ctx) {
+	r := c.Rng
+	for _, backlog := range []int{40, 256, 300} {
+		if c.Tier != "thorough" && backlog == 40 {
+			continue
+		}
+		cs := c.Begin()
+		do := func(op string) string { c.Count("op." + strings.SplitN(op, " ", 2)[0]); return cs.Do(op) }
+		p := newPager(r, 512, do)
+		p.journalMode = "DELETE"
+		do("open primary")
+		do("createdb")
+		observe := func() {
+			cs.Do(p.refLine())
+			do("state")
+			do("ltx")
+			do("raw")
+			do("svc")
+			do("hwm")
+		}
+		pagerStep(c, p, 3)
+		do("state")
+		do("svc")
+		do("backup-sync")
+		do("svc")
+		observe()
+		for n := 0; n < backlog; {
+			if ok, _ := pagerStep(c, p, 2); ok {
+				n++
+			}
+		}
+		observe()
+		do("reopen-loop")
+		p.restarted()
+		do("state")
+		do("svc")
+		do("backup-wait")
+		do("svc")
+		observe()
+		for j := 0; j < 3; j++ {
+			pagerStep(c, p, 2)
+			do("state")
+			do("svc")
+			do("backup-wait")
+			do("svc")
+			observe()
+		}
+		c.Count("directed.backup-loop")
+		c.Nontrivial(fmt.Sprintf("backup-loop-%d", backlog))
+		cs.End()
+	}
 }
